@@ -54,6 +54,7 @@ PROPS['C19'] = dict(level='model_checking',
   bounds='T=2 (runner = start + natural completion, stopper), K per harness; symbolic completion channel',
   outside='create_basic_sender (recursive mutex + weak_ptr control blocks), more than one stopper; detach_on_cancel with the real inplace_stop_source exceeds the engine (value-set growth of the ref-count word), see DESIGN',
   harnesses=[
+    H('detach_min', 'C19_detach2.cpp', ['h_complete', 'h_stop'], 26, opts=dict(prune=1), desc='detach_on_cancel: natural completion racing a stop request (minimal outer stop source; receiver frees the op)'),
     H('canary_vs_watcher', 'C19_canary.cpp', ['h_watcher_side', 'h_canary_side'], 30, desc='canary destruction racing watcher guard/destruction; both objects freed right after their destructors'),
   ])
 
